@@ -3072,6 +3072,16 @@ func ruleNORM2(c *Ctx) []Ob {
 					al, isAl := stripIfaceOnly(og).(*ssa.Alloc)
 					if !isAl {
 						if stripIfaceOnly(og) == ssa.Value(node) {
+							hasChild := false
+							for i := 0; st != nil && i < st.NumFields(); i++ {
+								if c.isCriteriaType(st.Field(i).Type()) {
+									hasChild = true
+								}
+							}
+							if hasChild {
+								o.add(VIOLATED, key, pos, "visiting a %s returns the node it was given although the node has children: what the visit of the children produced (their operands in canonical form) is dropped - the operands below this node reach the planner raw, and a range derived from them (Not(x > 5) on an indexed field becomes x <= int(5)) panics in the key encoder or in the comparison of two bounds", nodeT.Obj().Name())
+								continue
+							}
 							o.add(OK, key, pos, "returns the node it was given")
 							continue
 						}
